@@ -3,6 +3,7 @@
   In the model "random" = the oracle argument `pri`; a recorded tiebreak = `ElectResult.tiebreak`
   (copied into `RoundState.tiebreaks`).
 -/
+import VK.Model.STV
 import VK.Lemmas.Elect
 
 namespace VK
@@ -221,5 +222,196 @@ theorem C10_scored_tiebreak (pri s : List Cand) (p : Profile) (t : Ranking) (hc 
     | raised e => simp [hs, bind, Outcome.bind] at h
     | oracleMismatch => simp [hs, bind, Outcome.bind] at h
     | outOfFuel => simp [hs, bind, Outcome.bind] at h
+
+/-! ### whole STV counts: no recorded tiebreak, no dependence on the random source -/
+
+/-- the fractional and full-weight transfers never look at the sample oracle -/
+theorem applyTransfers_sample_irrelevant (cfg : STVCfg) (hop : List Cand) (q : Int)
+    (s s' : Cand → List (List Cand × Nat)) (hnr : cfg.transfer ≠ .random) (ws : List Cand) (bs : List PBallot) :
+    applyTransfers cfg hop q s ws bs = applyTransfers cfg hop q s' ws bs := by
+  induction ws generalizing bs with
+  | nil => rfl
+  | cons w rest ih =>
+    simp only [applyTransfers]
+    have h1 : applyTransfer cfg hop q (s w) bs w = applyTransfer cfg hop q (s' w) bs w := by
+      unfold applyTransfer
+      cases ht : cfg.transfer with
+      | full => rfl
+      | fractional => rfl
+      | random => exact absurd ht hnr
+    rw [h1]
+    cases applyTransfer cfg hop q (s' w) bs w with
+    | ok bs1 => simp only [bind, Outcome.bind]; exact ih bs1
+    | raised e => rfl
+    | oracleMismatch => rfl
+    | outOfFuel => rfl
+
+theorem electChoice_no_tiebreak (cfg : STVCfg) (q : Int) (ω ω' : STVOracle) (rnd : Nat) (S : CState) (prev : RoundState)
+    (g : Ranking) (h : electChoice cfg q ω rnd S prev = .ok (g, [])) :
+    electChoice cfg q ω' rnd S prev = .ok (g, []) := by
+  unfold electChoice at h ⊢
+  by_cases hsim : cfg.simultaneous = true
+  · simp only [hsim, if_true] at h ⊢; exact h
+  · have hsim' : cfg.simultaneous = false := by simpa using hsim
+    simp only [hsim', Bool.false_eq_true, if_false] at h ⊢
+    cases he : electFromRanking (ω.pri rnd) prev.remaining 1 (some (currentProfile S)) cfg.tiebreak with
+    | ok er =>
+      simp only [he, bind, Outcome.bind, pure, Outcome.ok.injEq, Prod.mk.injEq] at h
+      have hern : er.tiebreak = none := by
+        cases ht : er.tiebreak with
+        | none => rfl
+        | some t => rw [ht] at h; simp at h
+      rw [C10_no_tiebreak_no_randomness _ (ω'.pri rnd) _ _ _ _ er he hern]
+      simp only [bind, Outcome.bind, pure, Outcome.ok.injEq, Prod.mk.injEq]
+      exact h
+    | raised e => simp [he, bind, Outcome.bind] at h
+    | oracleMismatch => simp [he, bind, Outcome.bind] at h
+    | outOfFuel => simp [he, bind, Outcome.bind] at h
+
+theorem loserChoice_no_tiebreak (init : Profile) (ω ω' : STVOracle) (rnd : Nat) (lowest : List Cand) (c : Cand)
+    (h : loserChoice init ω rnd lowest = .ok (c, [])) : loserChoice init ω' rnd lowest = .ok (c, []) := by
+  unfold loserChoice at h ⊢
+  by_cases hlen : lowest.length > 1
+  · simp only [hlen, if_true] at h
+    cases ht : tiebreakSet (ω.pri rnd) lowest (some init) .firstPlace with
+    | ok t =>
+      simp only [ht, bind, Outcome.bind] at h
+      split at h
+      · simp only [pure, Outcome.ok.injEq, Prod.mk.injEq] at h
+        exact absurd h.2 (by simp)
+      · cases h
+    | raised e => simp [ht, bind, Outcome.bind] at h
+    | oracleMismatch => simp [ht, bind, Outcome.bind] at h
+    | outOfFuel => simp [ht, bind, Outcome.bind] at h
+  · simp only [hlen, if_false] at h ⊢; exact h
+
+/-- a step that records no tiebreak gives the same result under every oracle -/
+theorem stvStep_no_tiebreak (cfg : STVCfg) (init : Profile) (q : Int) (ω ω' : STVOracle) (rnd : Nat)
+    (S S' : CState) (prev r : RoundState) (hnr : cfg.transfer ≠ .random)
+    (h : stvStep cfg init q ω rnd S prev = .ok (S', r)) (hnone : r.tiebreaks = []) :
+    stvStep cfg init q ω' rnd S prev = .ok (S', r) := by
+  unfold stvStep at h ⊢
+  simp only at h ⊢
+  by_cases habove : (!(prev.scores.filter (fun cs => decide ((q : Rat) ≤ cs.2))).isEmpty) = true
+  · simp only [habove, if_true] at h ⊢
+    cases he : electChoice cfg q ω rnd S prev with
+    | ok gt =>
+      obtain ⟨g, tbs⟩ := gt
+      simp only [he, bind, Outcome.bind] at h
+      cases ha : applyTransfers cfg S.hopeful q (ω.sample rnd) g.flatten S.bs with
+      | ok bs' =>
+        simp only [ha, pure, Outcome.ok.injEq, Prod.mk.injEq] at h
+        have htbs : tbs = [] := by rw [← h.2] at hnone; exact hnone
+        subst htbs
+        rw [electChoice_no_tiebreak cfg q ω ω' rnd S prev g he]
+        simp only [bind, Outcome.bind]
+        rw [← applyTransfers_sample_irrelevant cfg S.hopeful q (ω.sample rnd) (ω'.sample rnd) hnr, ha]
+        simp only [pure, Outcome.ok.injEq, Prod.mk.injEq]
+        exact h
+      | raised e => simp [ha] at h
+      | oracleMismatch => simp [ha] at h
+      | outOfFuel => simp [ha] at h
+    | raised e => simp [he, bind, Outcome.bind] at h
+    | oracleMismatch => simp [he, bind, Outcome.bind] at h
+    | outOfFuel => simp [he, bind, Outcome.bind] at h
+  · simp only [habove, Bool.false_eq_true, if_false] at h ⊢
+    by_cases hc : (decide (S.nElected ≤ cfg.m) && decide (S.hopeful.length = cfg.m - S.nElected)) = true
+    · simp only [hc, if_true] at h ⊢; exact h
+    · simp only [hc, Bool.false_eq_true, if_false] at h ⊢
+      cases hl : prev.remaining.getLast? with
+      | none => simp [hl] at h
+      | some lowest =>
+        simp only [hl] at h ⊢
+        cases hlc : loserChoice init ω rnd lowest with
+        | ok ct =>
+          obtain ⟨c, tbs⟩ := ct
+          simp only [hlc, bind, Outcome.bind, pure, Outcome.ok.injEq, Prod.mk.injEq] at h
+          have htbs : tbs = [] := by rw [← h.2] at hnone; exact hnone
+          subst htbs
+          rw [loserChoice_no_tiebreak init ω ω' rnd lowest c hlc]
+          simp only [bind, Outcome.bind, pure, Outcome.ok.injEq, Prod.mk.injEq]
+          exact h
+        | raised e => simp [hlc, bind, Outcome.bind] at h
+        | oracleMismatch => simp [hlc, bind, Outcome.bind] at h
+        | outOfFuel => simp [hlc, bind, Outcome.bind] at h
+
+theorem stvLoop_no_tiebreak (cfg : STVCfg) (init : Profile) (q : Int) (ω ω' : STVOracle) (hnr : cfg.transfer ≠ .random)
+    (fuel : Nat) (S : CState) (prev : RoundState) (acc tr : List (RoundState × CState))
+    (h : stvLoop cfg init q ω fuel S prev acc = .ok tr) (hnone : ∀ x ∈ tr, x.1.tiebreaks = []) :
+    stvLoop cfg init q ω' fuel S prev acc = .ok tr := by
+  -- every round recorded from here on ends up in the result
+  have hsub : ∀ (fuel : Nat) (S : CState) (prev : RoundState) (acc tr : List (RoundState × CState)),
+      stvLoop cfg init q ω fuel S prev acc = .ok tr → ∀ x ∈ acc, x ∈ tr := by
+    intro fuel
+    induction fuel with
+    | zero =>
+      intro S prev acc tr h x hx
+      unfold stvLoop at h
+      split at h
+      · injection h with h; subst h; exact List.mem_reverse.2 hx
+      · cases h
+    | succ fuel ih =>
+      intro S prev acc tr h x hx
+      unfold stvLoop at h
+      split at h
+      · injection h with h; subst h; exact List.mem_reverse.2 hx
+      · cases hs : stvStep cfg init q ω (prev.round + 1) S prev with
+        | ok Sr =>
+          simp only [hs, bind, Outcome.bind] at h
+          exact ih _ _ _ _ h x (List.mem_cons_of_mem _ hx)
+        | raised e => simp [hs, bind, Outcome.bind] at h
+        | oracleMismatch => simp [hs, bind, Outcome.bind] at h
+        | outOfFuel => simp [hs, bind, Outcome.bind] at h
+  induction fuel generalizing S prev acc with
+  | zero => simpa [stvLoop] using h
+  | succ fuel ih =>
+    unfold stvLoop at h ⊢
+    split
+    · rename_i hm; simpa [hm] using h
+    · rename_i hm
+      simp only [hm, if_false] at h
+      cases hs : stvStep cfg init q ω (prev.round + 1) S prev with
+      | ok Sr =>
+        obtain ⟨S', r⟩ := Sr
+        simp only [hs, bind, Outcome.bind] at h
+        have hr : r.tiebreaks = [] := hnone (r, S') (hsub _ _ _ _ _ h (r, S') (by simp))
+        rw [stvStep_no_tiebreak cfg init q ω ω' _ S S' prev r hnr hs hr]
+        simp only [bind, Outcome.bind]
+        exact ih S' r _ h
+      | raised e => simp [hs, bind, Outcome.bind] at h
+      | oracleMismatch => simp [hs, bind, Outcome.bind] at h
+      | outOfFuel => simp [hs, bind, Outcome.bind] at h
+
+/-- **C10 for whole STV / IRV / SequentialRCV counts.** If a finished count (fractional or
+full-weight transfer) records no tiebreak in any round, the complete result — every round — is the
+same under every value of the random source. -/
+theorem C10_stv_no_tiebreak_deterministic (cfg : STVCfg) (p : Profile) (ω ω' : STVOracle) (res : STVResult)
+    (hnr : cfg.transfer ≠ .random) (h : stvRun cfg p ω = .ok res)
+    (hnone : ∀ s ∈ res.states, s.tiebreaks = []) : stvRun cfg p ω' = .ok res := by
+  unfold stvRun at h ⊢
+  by_cases h1 : (!stvValidProfile p) = true
+  · simp [h1] at h
+  by_cases h2 : (decide (cfg.m = 0) || decide (cfg.m > p.cands.length)) = true
+  · simp [h1, h2] at h
+  simp only [h1, h2, Bool.false_eq_true, Bool.not_true, if_false] at h ⊢
+  cases h0 : firstPlaceVotes p with
+  | ok sc0 =>
+    simp only [h0, bind, Outcome.bind] at h ⊢
+    cases hl : stvLoop cfg p (threshold cfg.quota cfg.m p.total) ω (p.cands.length + 2) (stvInitState p)
+        (initialState p.cands (some sc0)) [(initialState p.cands (some sc0), stvInitState p)] with
+    | ok tr =>
+      simp only [hl, pure, Outcome.ok.injEq] at h
+      subst h
+      rw [stvLoop_no_tiebreak cfg p _ ω ω' hnr _ _ _ _ tr hl (by
+        intro x hx
+        exact hnone x.1 (List.mem_map.2 ⟨x, hx, rfl⟩))]
+      rfl
+    | raised e => simp [hl] at h
+    | oracleMismatch => simp [hl] at h
+    | outOfFuel => simp [hl] at h
+  | raised e => simp [h0, bind, Outcome.bind] at h
+  | oracleMismatch => simp [h0, bind, Outcome.bind] at h
+  | outOfFuel => simp [h0, bind, Outcome.bind] at h
+
 
 end VK
